@@ -373,9 +373,9 @@ Proof.
     assert (Hex : exists e', In e' (order (lru d')) /\ key_of e' = K).
     { rewrite Ho. destruct (String.eqb key K) eqn:EK.
       - apply String.eqb_eq in EK. subst K. destruct (touched_new key v0 l1) as (e' & H1 & H2).
-        exists e'. split; [exact H1|]. unfold key_of. rewrite H2. reflexivity.
+        exists e'. split; [exact H1|]. unfold key_of in *. rewrite H2. simpl. congruence.
       - exists e. split; [|exact Hkey]. apply touched_fwd; [exact oc_inv|exact Hin|].
-        intros Heq. rewrite Hkey in Heq. subst K. rewrite String.eqb_refl in EK. discriminate. }
+        intros Heq. apply String.eqb_neq in EK. apply EK. congruence. }
     destruct Hex as (e' & Hin' & Hkey').
     unfold peek in Ha. rewrite (find_key_Some_iff K _ Hk' e' Hin' Hkey') in Ha. discriminate.
   - right. right. exists v0, id, k, hash, sz, off, zstd, b, rnd. auto 10.
@@ -426,6 +426,226 @@ Proof.
   - unfold xcommit_of. rewrite od_nc, app_nil_r. intros K v' Hp. apply HL.
     eapply back_keeps; [exact HI| |exact Hp].
     unfold LRU.remove_element in od_rm. destruct (find_id id (order (lru d))) as [e0|]; [|discriminate].
-    inversion od_rm as [Heq]. intros e He. rewrite <- Heq in He. unfold remove_elem, enqueue in He. simpl in He.
+    inversion od_rm as [Heq]. intros e He. try rewrite <- Heq in He. unfold remove_elem, enqueue in He. simpl in He.
     eapply remove_id_incl; exact He.
+Qed.
+
+(* a commit indexes its key unless its own Add ran under pressure *)
+Lemma commit_indexes d t d' t' key cid lsz len :
+  OrdEffect d t d' t' -> Inv (lru d') -> commit_of t t' = Some (key, cid, lsz, len) ->
+  pressure_commit d t d' \/
+  exists v, peek key (lru d') = Some v /\ size v = lsz /\ sizeOnDisk v = len /\ t_tmp t = Some (path_of key v).
+Proof.
+  intros HE HI' Hc. destruct HE; try congruence.
+  rewrite oc_cm in Hc. inversion Hc; subst key0 cid0 lsz len. clear Hc.
+  destruct (Z_le_gt_dec (cur l1 + add_delta key v l1) (maxs l1)) as [Hfit|Hgt].
+  - right. exists v. split; [|auto].
+    destruct (add_no_pressure _ _ _ _ oc_add Hfit) as (Ho & _).
+    destruct (touched_new key v l1) as (e' & H1 & H2). rewrite <- Ho in H1.
+    destruct HI' as ([Hk' _ _ _ _ _ _ _ _] & _). apply peek_Some. exists e'. split; [|rewrite H2; reflexivity].
+    apply find_key_Some_iff; auto. unfold key_of. rewrite H2. reflexivity.
+  - left. exists key, v, l1. auto 10.
+Qed.
+
+(* ------------------------------------------------------------------ *)
+(* along every run with fresh names *)
+
+Lemma step_facts c s i t d' t' X M :
+  SysInv c s -> ConcInv c s X M -> nth_error (thr s) i = Some t -> tstep c (sd s) t = Some (d', t') ->
+  OrdEffect (sd s) t d' t' /\ Inv (lru d').
+Proof.
+  intros HS HC En Et. destruct s as [d ts]. simpl in *.
+  assert (Hin : In t ts) by (eapply nth_error_In; exact En).
+  pose proof (held_le_res c _ t HS Hin) as Hh. simpl in Hh.
+  assert (Hok : thread_ok c (files d) t).
+  { destruct HS as [_ _ _ HT _ _ _]. simpl in HT. rewrite Forall_forall in HT. apply HT. exact Hin. }
+  assert (Hv : val_ok c (files d) X t).
+  { destruct HC as [_ _ _ _ _ _ CV]. simpl in CV. rewrite Forall_forall in CV. apply CV. exact Hin. }
+  split.
+  - apply (tstep_ord c d X t d' t' Et (si_inv _ _ HS) Hh Hok Hv). apply HS.
+  - destruct (thread_step_inv c d ts i t d' t' HS En Et) as [HS' _]. apply HS'.
+Qed.
+
+Lemma last_step c s l X M :
+  SysInv c s -> ConcInv c s X M -> LastInv (lru (sd s)) X ->
+  LastInv (lru (sd (sstep c s l))) (X ++ step_xcommits c s l).
+Proof.
+  intros HS HC HL. unfold step_xcommits, step_pair. destruct l as [r|i|]; simpl.
+  - rewrite app_nil_r. exact HL.
+  - destruct (nth_error (thr s) i) as [t|] eqn:En; [|rewrite app_nil_r; exact HL].
+    destruct (tstep c (sd s) t) as [[d' t']|] eqn:Et; [|rewrite app_nil_r; exact HL]. simpl.
+    destruct (step_facts c s i t d' t' X M HS HC En Et) as [HE HI'].
+    eapply ord_last; [exact HE|apply HS|exact HI'|exact HL].
+  - rewrite app_nil_r. unfold evictor_step.
+    pose proof (evictor_step_spec (lru (sd s)) (si_inv _ _ HS)) as HE.
+    destruct (LRU.evictor_step (lru (sd s))) as [l' [en|]]; [|exact HL]. simpl.
+    destruct HE as (_ & _ & _ & _ & Ho & _). intros K v Hp. apply HL. rewrite <- (peek_order K _ _ Ho). exact Hp.
+Qed.
+
+Lemma conc_run3 c ls : forall s X M,
+  Forall label_ok ls -> SysInv c s -> ConcInv c s X M -> LastInv (lru (sd s)) X -> fresh_from c s M ls ->
+  exists X' M', ConcInv c (srun c s ls) X' M' /\ LastInv (lru (sd (srun c s ls))) X'
+                /\ map snd X' = map snd X ++ commits c s ls.
+Proof.
+  induction ls as [|l r IH]; intros s X M Hok HS HC HL Hf; simpl.
+  - exists X, M. rewrite app_nil_r. auto.
+  - inversion Hok as [|? ? Hl Hr]; subst. destruct Hf as [Hf1 Hf2].
+    destruct (IH (sstep c s l) (X ++ step_xcommits c s l) (M ++ step_created c s l)) as (X' & M' & H1 & H2 & H3);
+      [assumption|apply sstep_inv; assumption|apply conc_step; assumption|eapply last_step; eassumption|exact Hf2|].
+    exists X', M'. split; [exact H1|]. split; [exact H2|].
+    rewrite H3, map_app, step_xcommits_snd, app_assoc. reflexivity.
+Qed.
+
+Lemma reach3 c mx hd ls : 0 < mx -> Forall label_ok ls -> fresh_names c (sinit mx hd) ls ->
+  exists X M, SysInv c (srun c (sinit mx hd) ls) /\ ConcInv c (srun c (sinit mx hd) ls) X M
+              /\ LastInv (lru (sd (srun c (sinit mx hd) ls))) X /\ map snd X = commits c (sinit mx hd) ls.
+Proof.
+  intros Hm Hok Hf.
+  destruct (conc_run3 c ls (sinit mx hd) [] [] Hok (sinit_inv c mx hd Hm) (conc_init c mx hd)) as (X & M & H1 & H2 & H3).
+  - intros K v H. discriminate H.
+  - exact Hf.
+  - exists X, M. split; [apply srun_inv; assumption|]. auto.
+Qed.
+
+(* ---- the indexed value of a key is the last commit of that key ---- *)
+
+Definition last_commit (K : string) (log : list commit) : option commit :=
+  find (fun cm => String.eqb (ckey cm) K) (rev log).
+
+Lemma find_map_snd {A B} (p : B -> bool) (l : list (A * B)) :
+  find p (map snd l) = option_map snd (find (fun x => p (snd x)) l).
+Proof. induction l as [|x t IH]; simpl; [reflexivity|]. destruct (p (snd x)); [reflexivity|exact IH]. Qed.
+
+Lemma last_for_commit K X x : last_for K X = Some x -> last_commit K (map snd X) = Some (snd x).
+Proof. unfold last_for, last_commit. intros H. rewrite <- map_rev, find_map_snd. cbv beta.
+  unfold xcommit in *. rewrite H. reflexivity. Qed.
+
+Lemma find_rev_split {A} (p : A -> bool) l x : find p (rev l) = Some x ->
+  exists l1 l2, l = l1 ++ x :: l2 /\ p x = true /\ Forall (fun y => p y = false) l2.
+Proof.
+  induction l as [|y t IH] using rev_ind; simpl; [discriminate|].
+  rewrite rev_app_distr. simpl. destruct (p y) eqn:E.
+  - intros H. inversion H; subst. exists t, []. auto.
+  - intros H. destruct (IH H) as (l1 & l2 & H1 & H2 & H3). exists l1, (l2 ++ [y]).
+    split; [rewrite H1, <- app_assoc; reflexivity|]. split; [exact H2|].
+    apply Forall_app; split; [exact H3|]. constructor; [exact E|constructor].
+Qed.
+
+Theorem indexed_is_last_commit c mx hd ls K v :
+  0 < mx -> Forall label_ok ls -> fresh_names c (sinit mx hd) ls ->
+  peek K (lru (sd (srun c (sinit mx hd) ls))) = Some v ->
+  exists cid X1 X2,
+    commits c (sinit mx hd) ls = X1 ++ (K, cid, size v, sizeOnDisk v) :: X2 /\
+    Forall (fun cm => ckey cm <> K) X2.
+Proof.
+  intros Hm Hok Hf Hp. destruct (reach3 c mx hd ls Hm Hok Hf) as (X & M & _ & _ & HL & HX).
+  destruct (HL K v Hp) as [cid H]. apply last_for_commit in H. rewrite HX in H. simpl in H.
+  unfold last_commit in H. apply find_rev_split in H as (X1 & X2 & H1 & _ & H3).
+  exists cid, X1, X2. split; [exact H1|]. eapply Forall_impl; [|exact H3].
+  intros cm E. simpl in E. apply String.eqb_neq. exact E.
+Qed.
+
+(* a commit of the key that is in the log is that last one or an earlier one *)
+Lemma in_before_last (K : string) (cm c0 : commit) X1 X2 :
+  In cm (X1 ++ c0 :: X2) -> ckey cm = K -> Forall (fun x => ckey x <> K) X2 -> In cm (X1 ++ [c0]).
+Proof.
+  intros Hin Hk HF. apply in_app_iff in Hin as [H|[H|H]].
+  - apply in_or_app. left. exact H.
+  - apply in_or_app. right. left. exact H.
+  - exfalso. rewrite Forall_forall in HF. exact (HF cm H Hk).
+Qed.
+
+(* ---- an acknowledged upload is in the log ---- *)
+
+Theorem acked_is_logged c mx hd ls t k hash sz st rnd :
+  0 < mx -> Forall label_ok ls -> fresh_names c (sinit mx hd) ls ->
+  In t (thr (srun c (sinit mx hd) ls)) -> t_req t = RPut k hash sz st rnd -> t_pc t = Done PutOk ->
+  (k = CAS /\ sz = 0 /\ hash = emptySha256)
+  \/ exists od, In (lookup_key k hash, st_cid st, sz, od) (commits c (sinit mx hd) ls).
+Proof.
+  intros Hm Hok Hf Hin Hreq Hpc. destruct (reach3 c mx hd ls Hm Hok Hf) as (X & M & _ & [_ _ _ _ _ _ CV] & _ & HX).
+  rewrite Forall_forall in CV. specialize (CV t Hin). unfold val_ok in CV. rewrite Hpc, Hreq in CV.
+  simpl in CV. rewrite HX in CV. exact CV.
+Qed.
+
+(* ---- which steps can take an indexed key out of the index ---- *)
+
+Definition loses (c : cfg) (s : sys) (l : label) (K : string) : Prop :=
+  peek K (lru (sd s)) <> None /\ peek K (lru (sd (sstep c s l))) = None.
+
+Theorem only_pressure_or_corruption_removes c mx hd ls l K :
+  0 < mx -> Forall label_ok ls -> fresh_names c (sinit mx hd) ls ->
+  let s := srun c (sinit mx hd) ls in
+  loses c s l K ->
+  exists i t d' t', l = LStep i /\ nth_error (thr s) i = Some t /\ tstep c (sd s) t = Some (d', t') /\
+    (pressure_reserve (sd s) t d' \/ pressure_commit (sd s) t d' \/ failed_validation_drop t).
+Proof.
+  intros Hm Hok Hf s [Hb Ha]. destruct (reach3 c mx hd ls Hm Hok Hf) as (X & M & HS & HC & _ & _). fold s in HS, HC.
+  destruct l as [r|i|]; simpl in Ha.
+  - congruence.
+  - destruct (nth_error (thr s) i) as [t|] eqn:En; [|congruence].
+    destruct (tstep c (sd s) t) as [[d' t']|] eqn:Et; [|congruence]. simpl in Ha.
+    destruct (step_facts c s i t d' t' X M HS HC En Et) as [HE HI'].
+    exists i, t, d', t'. split; [reflexivity|]. split; [exact En|]. split; [exact Et|].
+    eapply ord_loss; [exact HE|apply HS|exact HI'|exact Hb|exact Ha].
+  - exfalso. unfold evictor_step in Ha.
+    pose proof (evictor_step_spec (lru (sd s)) (si_inv _ _ HS)) as HE.
+    destruct (LRU.evictor_step (lru (sd s))) as [l' [en|]]; [|congruence]. simpl in Ha.
+    destruct HE as (_ & _ & _ & _ & Ho & _). rewrite (peek_order K _ _ Ho) in Ha. congruence.
+Qed.
+
+(* ---- found if acknowledged ---- *)
+
+Lemma no_loss_keeps c K ls2 : forall s1,
+  peek K (lru (sd s1)) <> None ->
+  (forall a l b, ls2 = a ++ l :: b -> ~ loses c (srun c s1 a) l K) ->
+  peek K (lru (sd (srun c s1 ls2))) <> None.
+Proof.
+  induction ls2 as [|l r IH]; intros s1 Hp Hno; simpl; [exact Hp|].
+  apply IH.
+  - intros Hn. apply (Hno [] l r eq_refl). split; [exact Hp|exact Hn].
+  - intros a l0 b E. apply (Hno (l :: a) l0 b). rewrite E. reflexivity.
+Qed.
+
+Lemma srun_app c s a b : srun c s (a ++ b) = srun c (srun c s a) b.
+Proof. unfold srun. apply fold_left_app. Qed.
+
+(* If key K is indexed at some moment of a run with fresh names (for instance right after the commit
+   of an acknowledged upload, see [commit_indexes_unless_pressure]) and no later step loses it — and
+   by [only_pressure_or_corruption_removes] only an eviction under space pressure or the guarded drop
+   can — then K is indexed at the end, with the LAST commit of K in the log: any commit of K that
+   is in the log (the acknowledged upload's) is that one or an earlier one. *)
+Theorem found_if_acked c mx hd ls1 ls2 K :
+  0 < mx -> Forall label_ok (ls1 ++ ls2) -> fresh_names c (sinit mx hd) (ls1 ++ ls2) ->
+  peek K (lru (sd (srun c (sinit mx hd) ls1))) <> None ->
+  (forall a l b, ls2 = a ++ l :: b -> ~ loses c (srun c (srun c (sinit mx hd) ls1) a) l K) ->
+  exists v cid X1 X2,
+    peek K (lru (sd (srun c (sinit mx hd) (ls1 ++ ls2)))) = Some v /\
+    commits c (sinit mx hd) (ls1 ++ ls2) = X1 ++ (K, cid, size v, sizeOnDisk v) :: X2 /\
+    Forall (fun cm => ckey cm <> K) X2 /\
+    (forall cm, In cm (commits c (sinit mx hd) (ls1 ++ ls2)) -> ckey cm = K ->
+       In cm (X1 ++ [(K, cid, size v, sizeOnDisk v)])).
+Proof.
+  intros Hm Hok Hf Hp Hno.
+  pose proof (no_loss_keeps c K ls2 _ Hp Hno) as Hend. rewrite <- srun_app in Hend.
+  destruct (peek K (lru (sd (srun c (sinit mx hd) (ls1 ++ ls2))))) as [v|] eqn:Epk; [|congruence].
+  destruct (indexed_is_last_commit c mx hd (ls1 ++ ls2) K v Hm Hok Hf Epk) as (cid & X1 & X2 & H1 & H2).
+  exists v, cid, X1, X2. split; [reflexivity|]. split; [exact H1|]. split; [exact H2|].
+  intros cm Hin Hk. rewrite H1 in Hin. eapply in_before_last; eassumption.
+Qed.
+
+(* the commit step of an upload or fetch indexes its key with the committed item, unless its own
+   Add had to evict under pressure *)
+Theorem commit_indexes_unless_pressure c mx hd ls i t d' t' key cid lsz len :
+  0 < mx -> Forall label_ok ls -> fresh_names c (sinit mx hd) ls ->
+  let s := srun c (sinit mx hd) ls in
+  nth_error (thr s) i = Some t -> tstep c (sd s) t = Some (d', t') ->
+  commit_of t t' = Some (key, cid, lsz, len) ->
+  pressure_commit (sd s) t d' \/
+  exists v, peek key (lru (sd (sstep c s (LStep i)))) = Some v /\ size v = lsz /\ sizeOnDisk v = len.
+Proof.
+  intros Hm Hok Hf s En Et Hc. destruct (reach3 c mx hd ls Hm Hok Hf) as (X & M & HS & HC & _ & _). fold s in HS, HC.
+  destruct (step_facts c s i t d' t' X M HS HC En Et) as [HE HI'].
+  destruct (commit_indexes _ _ _ _ _ _ _ _ HE HI' Hc) as [H|(v & H1 & H2 & H3 & _)]; [left; exact H|].
+  right. exists v. simpl. rewrite En, Et. simpl. auto.
 Qed.
